@@ -253,14 +253,24 @@ def run(ctx):
         w = [rng.randint(1, 9) for _ in range(k)]
         vol = [rng.randint(1, 6) for _ in range(k)]
         cap = rng.randint(1, sum(vol))
-        kp2 = KnapsackProblem(w, vol, cap)
-        kprob = from_problem(kp2)
-        reqs.append((f"example knapsack {nv.enc_ints([k] + w + vol + [cap])}", posted_dump(kprob), "knapsack", [w, vol, cap]))
-        r = nv.impl_optimize(kprob, nv.Cfg(), kp2.weight, False)
-        bestk = max(sum(wi for wi, p_ in zip(w, pick) if p_) for pick in itertools.product((0, 1), repeat=k) if sum(vi for vi, p_ in zip(vol, pick) if p_) <= cap)
-        report.cov["evaluations"] += 1
-        if r[0] != "ok" or r[1] is None or r[1][kp2.weight] != bestk:
-            viol.append({"kind": "example", "model": "knapsack", "args": [w, vol, cap], "detail": f"optimum {None if r[1] is None else r[1][kp2.weight]} != brute force {bestk}"})
+        # boundary variants of the same instance: an item that fills the knapsack exactly, one that just does not fit, everything fits,
+        # a worthless item, two items that fill it exactly together
+        i0 = rng.randrange(k)
+        heavy = max(range(k), key=lambda i: w[i])
+        variants = [(w, vol, cap), (w, vol, vol[i0]), (w, vol, vol[heavy]), (w, vol, max(1, vol[heavy] - 1)), (w, vol, sum(vol)),
+                    ([0 if i == i0 else x for i, x in enumerate(w)], vol, cap), (w, vol, vol[i0] + vol[(i0 + 1) % k])]
+        for (w_, vol_, cap_) in variants:
+            kp2 = KnapsackProblem(w_, vol_, cap_)
+            kprob = from_problem(kp2)
+            reqs.append((f"example knapsack {nv.enc_ints([k] + w_ + vol_ + [cap_])}", posted_dump(kprob), "knapsack", [w_, vol_, cap_]))
+            r = nv.impl_optimize(kprob, nv.Cfg(), kp2.weight, False)
+            bestk = max(sum(wi for wi, p_ in zip(w_, pick) if p_) for pick in itertools.product((0, 1), repeat=k) if sum(vi for vi, p_ in zip(vol_, pick) if p_) <= cap_)
+            report.cov["evaluations"] += 1
+            report.nontrivial(("knapsack", str((w_, vol_, cap_))))
+            if r[0] != "ok" or r[1] is None or r[1][kp2.weight] != bestk:
+                viol.append({"kind": "example", "model": "knapsack", "args": [w_, vol_, cap_], "detail": f"optimum {None if r[1] is None else r[1][kp2.weight]} != brute force {bestk}"})
+            elif sum(vi * x for vi, x in zip(vol_, r[1][:k])) > cap_ or sum(wi * x for wi, x in zip(w_, r[1][:k])) != r[1][kp2.weight]:
+                viol.append({"kind": "example", "model": "knapsack", "args": [w_, vol_, cap_], "detail": f"the returned selection {r[1]} exceeds the capacity or does not have the reported weight"})
     answers = nv.Model().ask([q for q, _, _, _ in reqs])
     for (q, impl, name, args), ans in zip(reqs, answers):
         report.cov["evaluations"] += 1
@@ -305,6 +315,70 @@ def run(ctx):
                 viol.append({"kind": "example", "model": name, "args": list(args[:-1]), "detail": f"symmetry breaking changed satisfiability: {sorted(a)} solutions without, {sorted(b)} with"})
             if min(b) > min(a):
                 viol.append({"kind": "example", "model": name, "args": list(args[:-1]), "detail": f"symmetry breaking ADDED solutions: {sorted(a)} without, {sorted(b)} with"})
+    # constructed objects beyond the reach of search must be ACCEPTED by the shipped models (harness/accept.py).  A group is a
+    # set of symmetric images of one object: WITHOUT symmetry breaking every image must be accepted; WITH symmetry breaking at
+    # least one image must be (the flag may only choose representatives: "preserving satisfiability and the optimum")
+    import accept
+    os_ = __import__("os")
+    os_.environ["NUCS_VERIF_CALL_TIMEOUT"] = "120"
+    groups = []  # (model, args, what, constructor, [vectors], nvars, need_all)
+    for n_, marks_, what in accept.golomb_objects():
+        if n_ > 10 and what != "literature optimum":
+            continue
+        imgs = [accept.golomb_vector(m_) for m_ in (marks_, [marks_[-1] - x for x in reversed(marks_)]) if v_golomb(m_, m_[-1])]
+        if len(imgs) == 2:
+            for sb in (False, True):
+                groups.append(("golomb", [n_, int(sb)], what, lambda n_=n_, sb=sb: GolombProblem(n_, sb), imgs, len(imgs[0]), not sb))
+    for n_ in ((13, 16) if not thorough else (13, 16, 19, 25, 31)):
+        q = accept.queens_object(n_)
+        if q is not None and v_queens(n_, q):
+            groups.append(("queens", [n_], "explicit placement", lambda n_=n_: QueensProblem(n_),
+                           [q + [q[i] + i for i in range(n_)] + [q[i] - i for i in range(n_)]], n_, True))
+    for n_ in ((5, 7) if not thorough else (5, 7, 9, 11)):
+        imgs = [[x for row in sq for x in row] for sq in accept.dihedral(accept.siamese(n_))]
+        imgs = [f for f in imgs if v_magic_square(n_, f)]
+        if len(imgs) == 8:
+            for sb in (False, True):
+                groups.append(("magic_square", [n_, int(sb)], "Siamese construction and its 8 dihedral images", lambda n_=n_, sb=sb: MagicSquareProblem(n_, sb), imgs, n_ * n_, not sb))
+    for n_ in ((8,) if not thorough else (8, 11, 14)):
+        flat = [(i + j) % n_ for i in range(n_) for j in range(n_)]
+        if v_latin(n_, flat):
+            groups.append(("latin_square", [n_], "cyclic square", lambda n_=n_: LatinSquareProblem(list(range(n_))), [flat], n_ * n_, True))
+    for n_ in ((9, 15) if not thorough else (9, 15, 30, 60)):
+        ms = accept.magic_sequence_object(n_)
+        if ms is not None and v_magic_sequence(n_, ms):
+            groups.append(("magic_sequence", [n_], "closed form", lambda n_=n_: MagicSequenceProblem(n_), [ms], n_, True))
+    for n_ in (13, 9):
+        imgs = []
+        for perm in itertools.permutations(range(3)):
+            flat = []
+            for x in range(1, n_ + 1):
+                c = perm[[x in s_ for s_ in accept.SCHUR13].index(True)]
+                flat += [1 if k_ == c else 0 for k_ in range(3)]
+            if v_schur(n_, flat):
+                imgs.append(flat)
+        if len(imgs) == 6:
+            for sb in (False, True):
+                groups.append(("schur_lemma", [n_, int(sb)], f"a sum-free 3-colouring of 1..{n_} under the 6 colour permutations", lambda n_=n_, sb=sb: SchurLemmaProblem(n_, sb), imgs, 3 * n_, not sb))
+    fano = [1 if i in accept.FANO[j] else 0 for i in range(7) for j in range(7)]
+    if v_bibd(7, 7, 3, 3, 1, fano):
+        conj = [fano[i1 * 7 + bb] & fano[i2 * 7 + bb] for i1 in range(6) for i2 in range(i1 + 1, 7) for bb in range(7)]
+        groups.append(("bibd", [7, 7, 3, 3, 1, 0], "Fano plane", lambda: BIBDProblem(7, 7, 3, 3, 1, False), [fano + conj], 49, True))
+    for name_, args_, what, mk, vecs, nvars, need_all in groups:
+        whys = []
+        for vec in vecs:
+            try:
+                whys.append(accept.accepts(from_problem(mk()), vec, nvars))
+            except Exception as e:  # noqa: BLE001
+                whys.append(f"{type(e).__name__}: {e}")
+            report.cov["evaluations"] += 1
+        report.count("constructed_objects", name_)
+        report.nontrivial(("accept", name_, str(args_), what))
+        rejected = [(vec[:nvars], w_) for vec, w_ in zip(vecs, whys) if w_ is not None]
+        if (need_all and rejected) or (not need_all and len(rejected) == len(vecs)):
+            viol.append({"kind": "example", "model": name_, "args": args_, "object": rejected[0][0],
+                         "detail": f"a valid {name_} object ({what}) is rejected by the shipped model" + ("" if need_all else " in EVERY symmetric image") + f": {rejected[0][1]}"})
+    os_.environ["NUCS_VERIF_CALL_TIMEOUT"] = "15"
     # optimisation examples: knapsack and Golomb against brute force / literature
     import nucs.examples.golomb.golomb_problem as G
     for marks in ([4, 5] if not thorough else [4, 5, 6, 7]):
